@@ -710,6 +710,24 @@ def helper_extras(seed):
         except (TypeError, ValueError):
             continue
         add('read_fragment_smiles', term)
+        # rebuild_h_atoms called directly on the fragment that was just read, with both settings of keep_bonding and
+        # other copy_attrs (the resolver and the sampler only ever use the defaults)
+        if res is not None and in_table(res) and modelable(res):
+            kb = rng.random() < 0.6
+            ca = rng.choice([['fragid', 'fragname', 'weight'], ['fragname'], [], ['weight', 'atomname', 'nope']])
+            H = copy.deepcopy(res)
+            ev = {}
+            orig_car = SH.correct_aromatic_rings
+
+            def car_(mol, *a, _o=orig_car, _ev=ev, **k):
+                return traced_car(_o, _ev, mol, *a, **k)
+            SH.correct_aromatic_rings = car_
+            try:
+                _, err = call(PU.rebuild_h_atoms, H, keep_bonding=kb, copy_attrs=list(ca))
+            finally:
+                SH.correct_aromatic_rings = orig_car
+            add('rebuild_h_atoms', '(XRebuild %s %s %s %s %s %s)' % (lit.b(kb), lit.lst([lit.s(x) for x in ca]), lit.nxgraph(res),
+                                                                  lit_match(ev.get('match')), lit_rings(ev.get('rings')), ores(H, err)))
         # compute_mass of the fragment that was just read
         if res is not None and in_table(res) and modelable(res):
             rec = Recorder(with_utils=True).install()
